@@ -6,8 +6,8 @@
 (* Layer D: Suitable(case), written from the statement and JoseDefs.       *)
 (* Layer O: the gates in the order the code fires them (use, key type,     *)
 (* curve, size, key_ops, private material), per entry-point path; a path   *)
-(* may lack a gate (the RFC 7797 paths have no key-type gate) in which case *)
-(* the primitive itself refuses the foreign key object.                    *)
+(* may lack a gate, in which case the primitive itself refuses the foreign  *)
+(* key object (the RFC 7797 compact path had no key-type gate until F22).   *)
 (***************************************************************************)
 EXTENDS JoseDefs, TLC, Json
 
@@ -99,7 +99,7 @@ Fail(stage) == pc' = "done" /\ out' = "fail" /\ UNCHANGED case
 Goto(l) == pc' = l /\ UNCHANGED <<case, out>>
 
 GateUse == pc = "use" /\ IF ~UseOk(case) /\ "UseNotChecked" \notin Dev THEN Fail("use") ELSE Goto("type")
-\* check_key_type; absent on the RFC 7797 unencoded paths, where the primitive refuses the foreign key object instead
+\* check_key_type (on the RFC 7797 compact path since fix F22; before, the primitive refused the foreign key object - with a TypeError, C16's business)
 GateType == pc = "type" /\ IF ~TypeOk(case) THEN Fail("type") ELSE Goto("curve")
 GateCurve == pc = "curve" /\ IF ~CurveOk(case) /\ "CurveNotChecked" \notin Dev THEN Fail("curve") ELSE Goto("size")
 GateSize ==
